@@ -183,7 +183,7 @@ def run(tier, only=None):
             items.append((tag, k, f, mod, name, d, cap))
     items.sort(key=lambda it: -it[5]["weight"])
     res = run_harnesses(sc, [(sel(tag, k, name), cap) for tag, k, f, mod, name, d, cap in items],
-                        mem_gb=14, jobs=8, extra_args=KARGS)
+                        mem_gb=14, jobs=8, extra_args=KARGS) if items else {}
     # escalation 1: a shallow harness that did not close is re-run with full unwinding (cover-free twin)
     esc = [(tag, k, name, d) for tag, k, f, mod, name, d, cap in items
            if d.get("deep") and res[sel(tag, k, name)].status in ("unwind", "failure")]
@@ -240,6 +240,15 @@ def run(tier, only=None):
             ob.unknown("%s: %s" % (r.status, r.log_tail[-300:].replace("\n", " | ")), "kani", r.seconds)
         obs.append(ob)
     sc.remove()
+    if not only or "corpus" in only:
+        # native closed cases beyond the harness bounds (long messages, all digit values, all leaves, exhaustion)
+        from . import C16_corpus as LC
+        try:
+            obs.extend(LC.obligations(tier))
+        except Exception as e:        # noqa
+            o_ = Obligation("default:lms:roundtrip_corpus", "ground")
+            o_.unknown("corpus build/run failed: %s" % str(e)[-300:])
+            obs.append(o_)
     posed = sorted(set((tag, _short(name)) for tag, k, f, mod, name, d, cap in items))
     notposed = sorted("%s:%s" % (tag, _short(name)) for name, d in H.items() for tag in ALL
                       if tag in d["thorough"] and (tag, _short(name)) not in posed)
